@@ -145,6 +145,10 @@ def gen(t, tier):
     mx, my = meta
     same_meta = [[(fx // mx) * mx + i, (fy // my) * my + j, z] for i in range(mx) for j in range(my)
                  if (fx // mx) * mx + i < n and (fy // my) * my + j < n]
+    holes = []
+    if bulk and len(same_meta) > 1 and t.chance(0.5):
+        # one or two tiles of the focus meta tile lie outside the source's coverage: the meta tile can never be cached completely
+        holes = [c for c in same_meta if c != focus][:t.randint(1, 2)]
     ox = (fx + mx) % n if n > mx else fx
     other = [ox, fy, z]
     if mode == 'stall':
@@ -185,6 +189,7 @@ def gen(t, tier):
                 reqs.append(m)
         procs[c % nproc if t.chance(0.5) else t.choice(nproc)]['clients'].append(reqs)
     sc['procs'] = [p for p in procs if p['clients']]
+    sc['holes'] = holes
     if mode == 'kill' and len(sc['procs']) < 2:
         sc['mode'] = 'plain'
     if sc['mode'] == 'plain' and sc.get('stack') != 'wsgi' and t.chance(0.3):
@@ -405,7 +410,7 @@ def _run_tm(sc, tape):
     # linked single-colour tiles: the upstream paints every third diagonal of tiles in one constant colour, different
     # tiles then share one file under single_color_tiles/ (written without a tile lock of its own)
     ocean = bool(sc['backend'].get('link'))
-    shared = {'log': [], 'gen': 0, 'ocean': ocean}
+    shared = {'log': [], 'gen': 0, 'ocean': ocean, 'holes': [tuple(c) for c in sc.get('holes') or []]}
     stall_done = [False]
     faults = {}
 
@@ -447,6 +452,8 @@ def _run_tm(sc, tape):
                     sched.check_alive()
                     for c, tile in zip(req, tiles):
                         if tile.source is None:
+                            if tuple(c) in shared['holes']:
+                                continue        # the source has no image for this tile: nothing to serve, nothing to cache
                             rec['tiles'].append((tuple(c), False, None, 'no image in the response'))
                             continue
                         ok, g, msg = U.check_tile_image(tile.source.as_image(), c, ocean=ocean)
@@ -611,7 +618,27 @@ def _oracle(sc, w, mode, name, outcome, responses, shared, killed, sched, grid):
             # so a successful fetch may legitimately be repeated after a sibling fetch failed
             continue
         per.setdefault((e['bbox'], e['size']), []).append(e)
+    holes_ = [tuple(c) for c in sc.get('holes') or []]
+    hmx, hmy = sc['meta_size']
+    hole_cells = set((c[0] // hmx, c[1] // hmy, c[2]) for c in holes_)
+
+    def in_hole_meta_tile(bbox):
+        # tile-by-tile fetches (bulk mode) for a meta tile that can never be cached completely are repeated by every
+        # request that needs it
+        for z_ in range(6):
+            n_ = 1 << z_
+            for cell in hole_cells:
+                if cell[2] != z_:
+                    continue
+                for i_ in range(hmx):
+                    for j_ in range(hmy):
+                        c_ = (cell[0] * hmx + i_, cell[1] * hmy + j_, z_)
+                        if c_[0] < n_ and c_[1] < n_ and U.covers(bbox, c_):
+                            return True
+        return False
     for k, es in per.items():
+        if len(es) > 1 and hole_cells and in_hole_meta_tile(k[0]):
+            continue
         if len(es) > 1:
             if sc.get('stale_locks') and w.fs.probes.get('unlink_of_file_flocked_by_other_task'):
                 # specific history: cleanup_lockdir() unlinked a stale lock file after another request had re-locked it
